@@ -104,7 +104,7 @@ func Load(repoDir, goarch string, tests bool) (*Program, error) {
 		return nil, err
 	}
 
-	p := &Program{Norm: norm, Absorbed: absorbed, Glue: glueNotes,RepoDir: repoDir, GOARCH: goarch, Tests: tests, Fset: fset, Roots: pkgs, Prog: prog, SSAPkgs: map[string]*ssa.Package{}}
+	p := &Program{Norm: norm, Absorbed: absorbed, Glue: glueNotes, RepoDir: repoDir, GOARCH: goarch, Tests: tests, Fset: fset, Roots: pkgs, Prog: prog, SSAPkgs: map[string]*ssa.Package{}}
 	for _, sp := range prog.AllPackages() {
 		if sp == nil || sp.Pkg == nil {
 			continue
